@@ -1,11 +1,385 @@
 /-
-  Command layer (cmd/*.go), L3 of DESIGN §3.1.
+  Command layer (cmd/*.go), L3 of DESIGN §3.1: view, view-raw, diff, copy, sum, sum-copy,
+  sum-diff over a tree of named files.  Outputs are *records* (archive, time, value bits),
+  not text: number and time formatting are exercised by the harness, which parses the
+  real output back into records.  Globbing is a parameter: the harness resolves patterns
+  with filepath.Match over the names it created and passes the resulting lists.
 -/
-import Wsp.Model.Whisper
+import Wsp.Model.World
 namespace Wsp.Cmd
+open Wsp.Handle
 
+/-- path ↦ bytes of the file on disk -/
 abbrev Tree := List (String × Bytes)
 
-def stepCmd (_o : FOps) (_t : Tree) (_toks : List String) : Option (Tree × String) := none
+def Tree.get (t : Tree) (p : String) : Option Bytes := (t.find? fun e => e.1 = p).map (·.2)
+
+def Tree.set (t : Tree) (p : String) (b : Bytes) : Tree :=
+  if (t.find? fun e => e.1 = p).isSome then t.map fun e => if e.1 = p then (p, b) else e
+  else t ++ [(p, b)]
+
+/-- how a command ends -/
+inductive Outcome
+  | ok
+  | diffFound
+  | err (k : ErrKind)
+  | panic
+  deriving Repr, DecidableEq, Inhabited
+
+def Outcome.ofFault : Fault → Outcome
+  | .panic _ => .panic
+  | .err k => .err k
+  | .wantLarger _ => .err .invalid
+
+/-- one printed record -/
+structure Rec where
+  arch : Nat
+  t : Nat
+  v : Val
+  v2 : Option (Val × Val) := none     -- diff: (dest value, dest − src)
+  deriving Repr, DecidableEq, Inhabited
+
+/-! ### nil-safe accessors of ⟦TimeSeries⟧ (repaired) -/
+
+def sFrom : Option Series → Nat | none => 0 | some s => s.from_
+def sUntil : Option Series → Nat | none => 0 | some s => s.until_
+def sStep : Option Series → Int | none => 0 | some s => s.step
+def sValues : Option Series → List Val | none => [] | some s => s.values
+
+/-- ⟦TimeSeries.Points⟧ : the i-th value belongs to `from + Duration(i)*step` (int32 product) -/
+def seriesPointsFrom (from_ : Nat) (step : Int) : Nat → List Val → List Point
+  | _, [] => []
+  | i, v :: vs => ⟨tsAdd from_ (i32 ((i : Int) * step)), v⟩ :: seriesPointsFrom from_ step (i + 1) vs
+
+def seriesPoints (s : Option Series) : List Point := seriesPointsFrom (sFrom s) (sStep s) 0 (sValues s)
+
+/-- ⟦fetchTimeSeriesList⟧ -/
+def fetchAll (h : Handle) (now from_ until_ : Nat) : Nat → List Arch → R (List (Option Series))
+  | _, [] => .ok []
+  | i, _ :: as =>
+    match h.fetchFromArchive (i : Int) from_ until_ now with
+    | .error e => .error e
+    | .ok s =>
+      match fetchAll h now from_ until_ (i + 1) as with
+      | .error e => .error e
+      | .ok rest => .ok (s :: rest)
+
+def fetchList (h : Handle) (archiveID : Int) (from_ until_ now : Nat) : R (List (Option Series)) :=
+  if archiveID = -1 then fetchAll h now from_ until_ 0 h.archs
+  else if 0 ≤ archiveID ∧ archiveID < h.archs.length then
+    match h.fetchFromArchive archiveID from_ until_ now with
+    | .error e => .error e
+    | .ok s => .ok ((List.range h.archs.length).map fun (i : Nat) => if (i : Int) = archiveID then s else none)
+  else .error (.err .outOfRange)
+
+/-- ⟦readWhisperFileLocal⟧ -/
+def readFile (o : FOps) (t : Tree) (path : String) (archiveID : Int) (from_ until_ now : Nat) :
+    R (Header × List (Option Series)) :=
+  match t.get path with
+  | none => .error (.err .notExist)
+  | some b =>
+    match openBytes o b with
+    | .error _ => .error (.err .invalid)
+    | .ok h =>
+      match fetchList h archiveID from_ until_ now with
+      | .error e => .error e
+      | .ok l => .ok (h.hdr, l)
+
+/-- ⟦ArchiveInfoList.Equal⟧ : steps and counts only -/
+def layoutsEqual (a b : List Arch) : Bool :=
+  a.length == b.length && (a.zip b).all fun (x, y) => x.step == y.step && x.n == y.n
+
+/-- ⟦TimeSeriesList.AllEqualTimeRangeAndStep⟧ -/
+def rangesEqual (a b : List (Option Series)) : Bool :=
+  a.length == b.length && (a.zip b).all fun (x, y) =>
+    sFrom x == sFrom y && sUntil x == sUntil y && sStep x == sStep y
+
+/-- ⟦TimeSeries.DiffPoints⟧ / ⟦DiffPointsExcludeSrcNaN⟧ -/
+def diffLoop (o : FOps) (exclNaN : Bool) (f1 f2 : Nat) (step : Int) : Nat → List Val → List Val → List Point × List Point
+  | i, v :: vs, v2 :: vs2 =>
+    let t := tsAdd f1 (i32 ((i : Int) * step))
+    let t2 := tsAdd f2 (i32 ((i : Int) * step))
+    let (r1, r2) := diffLoop o exclNaN f1 f2 step (i + 1) vs vs2
+    if (t ≠ t2 ∨ !o.vEqual v v2) ∧ !(exclNaN ∧ o.isNaN v) then (⟨t, v⟩ :: r1, ⟨t2, v2⟩ :: r2) else (r1, r2)
+  | _, _, _ => ([], [])
+
+def diffPoints (o : FOps) (exclNaN : Bool) (s1 s2 : Option Series) : List Point × List Point :=
+  if (sValues s1).length ≠ (sValues s2).length then (seriesPoints s1, seriesPoints s2)
+  else diffLoop o exclNaN (sFrom s1) (sFrom s2) (sStep s1) 0 (sValues s1) (sValues s2)
+
+/-- ⟦TimeSeriesList.Diff⟧ -/
+def diffLists (o : FOps) (exclNaN : Bool) (a b : List (Option Series)) : List (List Point) × List (List Point) :=
+  if a.length ≠ b.length then (a.map seriesPoints, b.map seriesPoints)
+  else ((a.zip b).map fun (x, y) => (diffPoints o exclNaN x y).1, (a.zip b).map fun (x, y) => (diffPoints o exclNaN x y).2)
+
+def allEmpty (pl : List (List Point)) : Bool := pl.all fun l => l.isEmpty
+
+/-- records of ⟦PointsList.Print⟧ -/
+def recsOf (pl : List (List Point)) : List Rec :=
+  (pl.zipIdx).flatMap fun (pts, i) => pts.map fun p => ⟨i, p.t, p.v, none⟩
+
+/-- records of ⟦printDiff⟧ : for each archive of the source header -/
+def diffRecs (o : FOps) (k : Nat) (sp dp : List (List Point)) : List Rec :=
+  (List.range k).flatMap fun i =>
+    ((sp.getD i []).zip (dp.getD i [])).map fun (s, d) => ⟨i, s.t, s.v, some (d.v, o.vDiff d.v s.v)⟩
+
+/-! ### commands -/
+
+structure Window where
+  archiveID : Int
+  from_ : Nat
+  until_ : Nat      -- 0 = "now"
+  now : Nat
+
+def Window.until' (w : Window) : Nat := if w.until_ = 0 then w.now else w.until_
+
+/-- ⟦ViewCommand.execute⟧ (local) -/
+def view (o : FOps) (t : Tree) (path : String) (w : Window) : Outcome × Option Header × List Rec :=
+  match readFile o t path w.archiveID w.from_ w.until' w.now with
+  | .error e => (.ofFault e, none, [])
+  | .ok (h, l) => (.ok, some h, recsOf (l.map seriesPoints))
+
+/-- ⟦filterPointsByTimeRange⟧ -/
+def filterRaw (a : Arch) (from_ until_ : Nat) (ps : List Point) : List Point :=
+  let until_ := if until_ = from_ then tsAdd until_ a.step else until_
+  ps.filter fun p => !((from_ ≠ 0 ∧ p.t ≤ from_) ∨ p.t > until_)
+
+def rawAll (h : Handle) : Nat → List Arch → R (List (List Point))
+  | _, [] => .ok []
+  | i, _ :: as =>
+    match h.rawPoints (i : Int) with
+    | .error e => .error e
+    | .ok ps =>
+      match rawAll h (i + 1) as with
+      | .error e => .error e
+      | .ok rest => .ok (ps :: rest)
+
+/-- ⟦ViewRawCommand.execute⟧ (local); `until_ = 0` means the wall clock -/
+def viewRaw (o : FOps) (t : Tree) (path : String) (w : Window) (sort : Bool) : Outcome × Option Header × List Rec :=
+  match t.get path with
+  | none => (.err .notExist, none, [])
+  | some b =>
+    match openBytes o b with
+    | .error _ => (.err .invalid, none, [])
+    | .ok h =>
+      let lists : R (List (List Point)) :=
+        if w.archiveID = -1 then rawAll h 0 h.archs
+        else if 0 ≤ w.archiveID ∧ w.archiveID < h.archs.length then
+          match h.rawPoints w.archiveID with
+          | .error e => .error e
+          | .ok ps => .ok ((List.range h.archs.length).map fun (i : Nat) => if (i : Int) = w.archiveID then ps else [])
+        else .error (.err .outOfRange)
+      match lists with
+      | .error e => (.ofFault e, none, [])
+      | .ok pl =>
+        let pl := (pl.zip h.archs).map fun (ps, a) => filterRaw a w.from_ w.until' ps
+        let pl := if sort then pl.map sortByTime else pl
+        (.ok, some h.hdr, recsOf pl)
+
+/-- ⟦DiffCommand.diffOneFile⟧ (local bases); a missing file on either side is a reported difference -/
+def diffOne (o : FOps) (t : Tree) (src dst : String) (w : Window) : Outcome × List Rec :=
+  let rs := readFile o t src w.archiveID w.from_ w.until' w.now
+  let rd := readFile o t dst w.archiveID w.from_ w.until' w.now
+  match rs, rd with
+  | .error (.err .notExist), _ => (.diffFound, [])
+  | _, .error (.err .notExist) => (.diffFound, [])
+  | .error e, _ => (.ofFault e, [])
+  | _, .error e => (.ofFault e, [])
+  | .ok (hs, ls), .ok (hd, ld) =>
+    if !layoutsEqual hs.archives hd.archives then (.err .mismatch, [])
+    else if !rangesEqual ls ld then (.err .unalike, [])
+    else
+      let (sp, dp) := diffLists o false ls ld
+      if allEmpty sp && allEmpty dp then (.ok, [])
+      else (.diffFound, diffRecs o hs.archives.length sp dp)
+
+/-- ⟦updateFileDataWithPointsList⟧ -/
+def updateAll (o : FOps) (h : Handle) (now : Nat) : Nat → List (List Point) → R Handle
+  | _, [] => .ok h
+  | i, ps :: rest =>
+    match h.updateMany o ps (i : Int) now with
+    | .error e => .error e
+    | .ok h' => updateAll o h' now (i + 1) rest
+
+structure CopyOpts where
+  agg : Nat
+  xff : UInt32
+  lay : List (Int × Nat)
+  copyNaN : Bool
+
+/-- ⟦openOrCreateCopyDestFile⟧ : returns the tree (a missing destination is created and
+    synced at once) and the handle -/
+def openOrCreate (o : FOps) (t : Tree) (dst : String) (c : CopyOpts) : R (Tree × Handle) :=
+  match newHeader o c.agg c.xff c.lay with
+  | .error e => .error e
+  | .ok _ =>
+    match t.get dst with
+    | some b =>
+      match openBytes o b with
+      | .error _ => .error (.err .invalid)
+      | .ok h => .ok (t, h)
+    | none =>
+      match createHandle o c.agg c.xff c.lay with
+      | .error e => .error e
+      | .ok (_, h) => .ok (t.set dst h.view, h)
+
+/-- ⟦copyDifferentPoints⟧ (repaired): archive by archive, finest first; a coarser archive
+    is compared with the source again just before it is written, because writing a finer
+    archive propagates into it.  Returns the points actually written per archive. -/
+def copyArchives (o : FOps) (ls : List (Option Series)) (exclNaN : Bool) (w : Window) :
+    Handle → Nat → List (List Point) → R (Handle × List (List Point))
+  | h, _, [] => .ok (h, [])
+  | h, i, ps :: rest =>
+    let pts : R (List Point) :=
+      match ls.getD i none with
+      | none => .ok ps
+      | some s =>
+        if i = 0 then .ok ps else
+        match h.fetchFromArchive (i : Int) w.from_ w.until' w.now with
+        | .error e => .error e
+        | .ok d => .ok (diffPoints o exclNaN (some s) d).1
+    match pts with
+    | .error e => .error e
+    | .ok pts =>
+      match h.updateMany o pts (i : Int) w.now with
+      | .error e => .error e
+      | .ok h' =>
+        match copyArchives o ls exclNaN w h' (i + 1) rest with
+        | .error e => .error e
+        | .ok (h'', written) => .ok (h'', pts :: written)
+
+/-- the common core of copy and sum-copy once the source series are known -/
+def copyCore (o : FOps) (t : Tree) (dst : String) (hd : Handle) (srcArchs : List Arch)
+    (ls : List (Option Series)) (w : Window) (exclNaN : Bool) : Tree × Outcome × List Rec :=
+  match fetchList hd w.archiveID w.from_ w.until' w.now with
+  | .error e => (t, .ofFault e, [])
+  | .ok ld =>
+    if !layoutsEqual srcArchs hd.archs then (t, .err .mismatch, [])
+    else if !rangesEqual ls ld then (t, .err .unalike, [])
+    else
+      let (sp, dp) := diffLists o exclNaN ls ld
+      if allEmpty sp && allEmpty dp then (t, .ok, [])
+      else
+        -- one batch per archive of the destination, in order
+        let batches := (List.range hd.archs.length).map fun i => sp.getD i []
+        match copyArchives o ls exclNaN w hd 0 batches with
+        | .error e => (t, .ofFault e, [])          -- no Sync: the disk keeps its bytes
+        | .ok (hd', written) => (t.set dst hd'.view, .ok, recsOf written)
+
+/-- ⟦CopyCommand.copyOneFile⟧ (local source). The destination is opened or created even
+    when reading the source fails (the two run concurrently). -/
+def copyOne (o : FOps) (t : Tree) (src dst : String) (c : CopyOpts) (w : Window) : Tree × Outcome × List Rec :=
+  match openOrCreate o t dst c with
+  | .error e => (t, .ofFault e, [])
+  | .ok (t, hd) =>
+    match readFile o t src w.archiveID w.from_ w.until' w.now with
+    | .error e => (t, .ofFault e, [])
+    | .ok (hs, ls) => copyCore o t dst hd hs.archives ls w (!c.copyNaN)
+
+/-- ⟦sumTimeSeriesListForArchive⟧ : column-wise NaN-skipping sum, first file first -/
+def sumColumns (o : FOps) : List (List Val) → List Val
+  | [] => []
+  | first :: rest => rest.foldl (fun acc vs => (acc.zip vs).map fun (a, b) => o.vAdd a b) first
+
+def sumSeries (o : FOps) (k : Nat) (lists : List (List (Option Series))) : List (Option Series) :=
+  match lists with
+  | [] => []
+  | l0 :: _ =>
+    (List.range k).map fun i =>
+      let ts0 := (l0.getD i none)
+      -- every list has `len(ts0.Values())` values at i (ranges were checked equal); a shorter one panics in Go
+      some ⟨sFrom ts0, sUntil ts0, sStep ts0, sumColumns o (lists.map fun l => sValues (l.getD i none))⟩
+
+/-- ⟦sumWhisperFileLocal⟧ over the resolved list of files of one item -/
+def sumFiles (o : FOps) (t : Tree) (files : List String) (w : Window) : R (Header × List (Option Series)) :=
+  if files.isEmpty then .error (.err .notExist) else
+  let rec readAll : List String → R (List (Header × List (Option Series)))
+    | [] => .ok []
+    | f :: fs =>
+      match readFile o t f w.archiveID w.from_ w.until' w.now with
+      | .error e => .error e
+      | .ok r =>
+        match readAll fs with
+        | .error e => .error e
+        | .ok rs => .ok (r :: rs)
+  match readAll files with
+  | .error e => .error e
+  | .ok rs =>
+    match rs with
+    | [] => .error (.err .notExist)
+    | (h0, l0) :: rest =>
+      if !(rest.all fun r => layoutsEqual h0.archives r.1.archives) then .error (.err .mismatch)
+      else if !(rest.all fun r => rangesEqual l0 r.2) then .error (.err .unalike)
+      else .ok (h0, sumSeries o h0.archives.length (rs.map (·.2)))
+
+def sum (o : FOps) (t : Tree) (files : List String) (w : Window) : Outcome × Option Header × List Rec :=
+  match sumFiles o t files w with
+  | .error e => (.ofFault e, none, [])
+  | .ok (h, l) => (.ok, some h, recsOf (l.map seriesPoints))
+
+/-- ⟦SumCopyCommand.sumCopyItem⟧ -/
+def sumCopy (o : FOps) (t : Tree) (files : List String) (dst : String) (c : CopyOpts) (w : Window) :
+    Tree × Outcome × List Rec :=
+  match openOrCreate o t dst c with
+  | .error e => (t, .ofFault e, [])
+  | .ok (t, hd) =>
+    match sumFiles o t files w with
+    | .error e => (t, .ofFault e, [])
+    | .ok (hs, ls) => copyCore o t dst hd hs.archives ls w false
+
+/-- ⟦SumDiffCommand.sumDiffItem⟧ -/
+def sumDiff (o : FOps) (t : Tree) (files : List String) (dst : String) (w : Window) : Outcome × List Rec :=
+  let rs := sumFiles o t files w
+  let rd := readFile o t dst w.archiveID w.from_ w.until' w.now
+  match rs, rd with
+  | .error (.err .notExist), _ => (.diffFound, [])
+  | _, .error (.err .notExist) => (.diffFound, [])
+  | .error e, _ => (.ofFault e, [])
+  | _, .error e => (.ofFault e, [])
+  | .ok (hs, ls), .ok (hd, ld) =>
+    if !layoutsEqual hs.archives hd.archives then (.err .mismatch, [])
+    else
+      let (sp, dp) := diffLists o false ls ld
+      if allEmpty sp && allEmpty dp then (.ok, [])
+      else (.diffFound, diffRecs o hs.archives.length sp dp)
+
+/-! ### glob mode: one command over several files / items -/
+
+/-- ⟦CopyCommand.execute⟧ with a glob: files in order, stop at the first error -/
+def copyMany (o : FOps) (c : CopyOpts) (w : Window) : Tree → List (String × String) → Tree × Outcome × List (List Rec)
+  | t, [] => (t, .ok, [])
+  | t, (s, d) :: rest =>
+    match copyOne o t s d c w with
+    | (t', .ok, recs) =>
+      let (t'', oc, rs) := copyMany o c w t' rest
+      (t'', oc, recs :: rs)
+    | (t', oc, recs) => (t', oc, [recs])
+
+/-- ⟦DiffCommand.execute⟧ with a glob: every file is compared; one difference makes the
+    run report a difference; any other error stops it -/
+def diffMany (o : FOps) (t : Tree) (w : Window) : List (String × String) → Bool → Outcome × List (List Rec)
+  | [], found => (if found then .diffFound else .ok, [])
+  | (s, d) :: rest, found =>
+    match diffOne o t s d w with
+    | (.ok, recs) => let (oc, rs) := diffMany o t w rest found; (oc, recs :: rs)
+    | (.diffFound, recs) => let (oc, rs) := diffMany o t w rest true; (oc, recs :: rs)
+    | (oc, recs) => (oc, [recs])
+
+def sumCopyMany (o : FOps) (c : CopyOpts) (w : Window) : Tree → List (List String × String) → Tree × Outcome × List (List Rec)
+  | t, [] => (t, .ok, [])
+  | t, (fs, d) :: rest =>
+    match sumCopy o t fs d c w with
+    | (t', .ok, recs) =>
+      let (t'', oc, rs) := sumCopyMany o c w t' rest
+      (t'', oc, recs :: rs)
+    | (t', oc, recs) => (t', oc, [recs])
+
+def sumDiffMany (o : FOps) (t : Tree) (w : Window) : List (List String × String) → Bool → Outcome × List (List Rec)
+  | [], found => (if found then .diffFound else .ok, [])
+  | (fs, d) :: rest, found =>
+    match sumDiff o t fs d w with
+    | (.ok, recs) => let (oc, rs) := sumDiffMany o t w rest found; (oc, recs :: rs)
+    | (.diffFound, recs) => let (oc, rs) := sumDiffMany o t w rest true; (oc, recs :: rs)
+    | (oc, recs) => (oc, [recs])
 
 end Wsp.Cmd
